@@ -134,6 +134,7 @@ package rules
 // `forwards M(args)`: on normal return exactly the call M(args) was appended to the ghost log of calls made
 // on the next receiver, and nothing else in the log changed; on a panic either nothing was appended (the
 // event was rejected) or exactly that call was (the panic came out of the next receiver).
+//@ ghost lastRuleKey any
 //@ macro PASS(r)
 //@   requires r.receiver != nil && r.context.config != nil && r.context.CurrentEntry.Rule != nil
 //@   modifies obj(r.context), memall(contextStackEntry), memall(byte), maps, alloc, lastRuleCall
@@ -182,16 +183,22 @@ package rules
 //@ func (*RulesEventReceiver).OnPositiveInt
 //@   use PASS(_this)
 //@   ensures _this.context.objectCount == old(_this.context.objectCount) + 1
+//@   modifies lastRuleKey
+//@   ensures typeIs(lastRuleKey, "uint64") && payload(lastRuleKey, "uint64") == value
 //@   forwards OnPositiveInt(value)
 
 //@ func (*RulesEventReceiver).OnNegativeInt
 //@   use PASS(_this)
 //@   ensures _this.context.objectCount == old(_this.context.objectCount) + 1
+//@   modifies lastRuleKey
+//@   ensures typeIs(lastRuleKey, "negint") && uint64(payload(lastRuleKey, "negint")) == value
 //@   forwards OnNegativeInt(value)
 
 //@ func (*RulesEventReceiver).OnInt
 //@   use PASS(_this)
 //@   ensures _this.context.objectCount == old(_this.context.objectCount) + 1
+//@   modifies lastRuleKey
+//@   ensures typeIs(lastRuleKey, "int64") && payload(lastRuleKey, "int64") == value
 //@   forwards OnInt(value)
 
 //@ func (*RulesEventReceiver).OnUID
@@ -304,6 +311,8 @@ package rules
 //@ func (*RulesEventReceiver).OnBigInt
 //@   use PASS(_this)
 //@   ensures _this.context.objectCount == old(_this.context.objectCount) + 1
+//@   modifies lastRuleKey
+//@   ensures value != nil ==> typeIs(lastRuleKey, "*big.Int") && payload(lastRuleKey, "*big.Int") == value
 //@   forwards value == nil : OnNull()
 //@   forwards !(value == nil) : OnBigInt(value)
 
